@@ -137,7 +137,7 @@ def _interp_records(chk):
         return orig(self, xgrid, polynomial_degree, *a, **kw)
 
     interpolation.InterpolatorDispatcher.__init__ = spy
-    tmp = pathlib.Path(tempfile.mkdtemp(prefix="eko-verif-c40-", dir=chk.scratch))
+    tmp = pathlib.Path(tempfile.mkdtemp(prefix="verif-eko-c40-", dir=chk.scratch))
     oldtmp = tempfile.tempdir
     tempfile.tempdir = str(tmp)
     try:
